@@ -65,6 +65,64 @@ def rust_consts(ctx):
     return out
 
 
+
+def indexed_arm(pat, body, dconst, stem):
+    """abstract evaluation of one indexed arm of to_type_id: value = (D << 26) | uid of the kind's own generator, and
+    the uid is drawn AFTER every member type was registered (row index = push order of tys_to_compile, and a type is
+    pushed when its arm returns: a recursive to_type_id between the draw and the push lets a nested type of the same
+    kind take the earlier row)"""
+    from symint import SymInterp, Lin, to_lin
+    from absint import Obj, Term, Variant, Panic, CannotEstablish
+    events = []
+
+    def rec(i, r, a):
+        events.append(("rec", r))
+        return Term("id_of", repr(r))
+
+    def gen(i, r, a):
+        events.append(("gen", r))
+        return Term("uid", repr(r))
+    it = SymInterp(methods={"to_type_id": rec, "generate_unique_id": gen},
+                   fields={})
+    T = lambda n: Variant("TySym", {"n": n})
+    env = {"meta_tys": Obj("MetaTyData", **{g + "_uid_gen": Term("gen", g) for g in
+                                            ("array", "slice", "pointer", "distinct", "function", "struct", "enum", "variant", "optional", "error_union")}),
+           "pointer_ty": Term("pointer_ty"), "self": T("self")}
+    for alt in synq.or_alternatives(pat):
+        for n in walk(alt):
+            if n.get("k") == "p_ident" and n["n"][:1].islower():
+                nm = n["n"]
+                if nm == "members":
+                    env[nm] = [Obj("MemberTy", name=Term("n1"), ty=T("m1")), Obj("MemberTy", name=Term("n2"), ty=T("m2"))]
+                elif nm == "variants":
+                    env[nm] = [T("v1"), T("v2")]
+                else:
+                    env[nm] = T(nm)
+            if n.get("k") == "p_struct":
+                for fname, fp in n["f"]:
+                    if fp.get("k") == "p_ident" and fp["n"] == fname and fname not in env:
+                        env[fname] = T(fname)
+    it.consts[dconst] = Term("D")
+    try:
+        v = it.eval(body, __import__("symint").Env(None, env))
+    except (Panic, CannotEstablish) as c:
+        return ["cannot establish how the id is built: %s" % getattr(c, "what", c)], "?"
+    problems = []
+    want_uid = Term("uid", repr(Term("gen", stem)))
+    shl = Lin.atom(Term("shl", Term("D"), 26))
+    ok_vals = [Lin.atom(Term("or", shl, to_lin(want_uid))), Lin.atom(Term("or", to_lin(want_uid), shl)),
+               shl.add(to_lin(want_uid))]
+    if to_lin(v) not in ok_vals:
+        problems.append("the id must be (%s << 26) | %s_uid_gen.generate_unique_id(); found %r" % (dconst, stem, v))
+    gens = [i for i, e in enumerate(events) if e[0] == "gen"]
+    recs = [i for i, e in enumerate(events) if e[0] == "rec"]
+    if len(gens) != 1:
+        problems.append("exactly one uid must be drawn per type, found %d" % len(gens))
+    elif any(i > gens[0] for i in recs):
+        problems.append("the row index is drawn before a member type is registered (to_type_id called after generate_unique_id): a nested type of the "
+                        "same kind is pushed first and takes this row — reflection then describes the wrong type")
+    return problems, "(%s << 26) | %s uid, drawn after %d member registrations" % (dconst, stem, len(recs))
+
 def r18a(ctx, run):
     m = meta(ctx)
     rc = rust_consts(ctx)
@@ -111,15 +169,25 @@ def r18a(ctx, run):
             run.check(val is not None and val < 16 and len(used) == 1, fn.site(arm["ln"]), "%s -> simple id with %s (%s < 16)" % (canon(p)[:30], d, val), "to_type_id",
                       "simple:" + kind, fn.file, arm["ln"], "simple ids must use a discriminant < 16 (meta.capy branches on `discriminant < 16`): %s = %s" % (d, val))
         elif indexed:
-            gens = sorted(set(re.findall(r"meta_tys\.(\w+)_uid_gen", body)))
             stem = d[:-len("_DISCRIMINANT")].lower()
-            good = val is not None and val >= 16 and len(used) == 1 and gens == [stem] and ("id | list_id" in body)
-            run.check(good, fn.site(arm["ln"]), "%s -> %s << 26 | %s_uid_gen" % (canon(p)[:30], d, stem), "to_type_id", "indexed:" + kind, fn.file, arm["ln"],
-                      "indexed id for %s must be its own discriminant (>= 16) combined with its own uid generator; found %s with generators %s" % (kind, used, gens))
+            problems, shown = indexed_arm(p, b, d, stem)
+            good = val is not None and val >= 16 and len(used) == 1 and not problems
+            run.check(good, fn.site(arm["ln"]), "%s -> %s" % (canon(p)[:30], shown), "to_type_id", "indexed:" + kind, fn.file, arm["ln"],
+                      "indexed id for %s: %s" % (kind, "; ".join(problems) or "discriminant %s = %s must be a single constant >= 16" % (used, val)))
             run.check(stem == kind, fn.site(arm["ln"]), "Ty kind %s uses %s" % (kind, d), "to_type_id", "kind:" + kind, fn.file, arm["ln"],
                       "Ty kind `%s` is given the id of kind `%s`" % (kind, stem))
         else:
             run.finding("to_type_id", "shape:" + kind, fn.file, arm["ln"], "arm %s builds its id in a way the analysis does not know" % canon(p)[:40])
+    # the type is pushed to the to-compile list (row order of the reflection arrays) only after its id was built
+    top = fn.body["s"]
+    i_match = [i for i, st in enumerate(top) if st["k"] == "local" and st.get("init") is ms[0]]
+    i_push = [i for i, st in enumerate(top) if st["k"] == "expr" and st["e"].get("k") == "mcall" and st["e"]["m"] == "push"
+              and canon(st["e"]["r"]).endswith("tys_to_compile")]
+    n_push = len([x for x in walk(fn.body) if x.get("k") == "mcall" and x["m"] == "push" and canon(x["r"]).endswith("tys_to_compile")])
+    good = len(i_match) == 1 and len(i_push) == 1 and n_push == 1 and i_push[0] > i_match[0]
+    run.check(good, fn.site(), "tys_to_compile.push(self) happens once, after the id (and every member type) was produced", "to_type_id", "push-order", fn.file, fn.ln,
+              "a type must be appended to tys_to_compile exactly once and only after its members were registered: the reflection arrays are emitted in this "
+              "order and indexed by the uid drawn at the end of each arm")
     # expected simple arms use the right constant
     want = {"Bool": "BOOL", "String": "STRING", "Char": "CHAR", "Type": "META_TYPE", "Any": "ANY", "RawPtr": "RAW_PTR", "RawSlice": "RAW_SLICE", "File": "FILE",
             "Void": "VOID", "Nil": "NIL", "IInt": "INT", "UInt": "INT", "Float": "FLOAT"}
